@@ -231,6 +231,21 @@ func registerHarnessIntrinsics() {
 		}
 		return nil
 	})
+	// VerifPool(k): switch the thread-pool contract stub to k threads (k = 1: the
+	// real single-thread code path of the pool runs)
+	reg("VerifPool", func(in *Interp, fn *ssa.Function, a []Value) Value {
+		in.poolThreads = int(in.concInt(a[0]))
+		in.poolJobs = nil
+		if in.poolErf == nil {
+			if p := in.pkgs[rootPkg]; p != nil {
+				in.poolErf = p.Func("VerifNilError")
+			}
+		}
+		return nil
+	})
+	reg("VerifPoolInterference", func(in *Interp, fn *ssa.Function, a []Value) Value {
+		return term.IntC(term.I64, int64(in.poolInterference()))
+	})
 	reg("VerifIsSymbolic", func(in *Interp, fn *ssa.Function, a []Value) Value { return term.True })
 	reg("VerifItoa", func(in *Interp, fn *ssa.Function, a []Value) Value {
 		return strconv.FormatInt(in.concInt(a[0]), 10)
